@@ -168,13 +168,12 @@ example :
 /-- T-kmer_rc (strand symmetry): for every ACGT k-mer, of any length, `_hash` gives a k-mer and
     its reverse complement the same value, so `count_kmer` / `get_kmer` treat them as one element. -/
 theorem kmer_rc (kmer : List Nat) (h : ∀ c ∈ kmer, isACGT c = true) :
-    hashKmer (revcomp kmer) = hashKmer kmer ∧ hashKmerChecked (revcomp kmer) = hashKmerChecked kmer := by
-  unfold hashKmer hashKmerChecked
-  rw [hashKmerCore_revcomp kmer h, revcomp_length]
+    hashKmer (revcomp kmer) = hashKmer kmer := by
+  unfold hashKmer
+  rw [hashKmerCore_revcomp kmer h]
   have : (revcomp kmer).isEmpty = kmer.isEmpty := by
     cases kmer <;> simp [revcomp]
   rw [this]
-  exact ⟨rfl, rfl⟩
 
 /-- … and for 1 ≤ k ≤ 32 that value is the smaller of the two 2-bit encodings (A=0, T=1, C=2, G=3,
     first base most significant) of the k-mer and of its reverse complement. -/
@@ -185,14 +184,20 @@ theorem kmer_canonical (kmer : List Nat) (h : ∀ c ∈ kmer, isACGT c = true)
   rw [this, hashKmerCore_canonical kmer h h32]
   rfl
 
-/-- the same in a build with overflow checks, where it needs 2 ≤ k … -/
-theorem kmer_canonical_checked (kmer : List Nat) (h : ∀ c ∈ kmer, isACGT c = true)
-    (h2 : 2 ≤ kmer.length) (h32 : kmer.length ≤ 32) : hashKmerChecked kmer = some (canonical kmer) := by
-  unfold hashKmerChecked
-  rw [if_neg (by omega), hashKmerCore_canonical kmer h h32]
+example : hashKmer [84] = some (canonical [84]) ∧ canonical [84] = 0 := by decide
 
-/-- … because a 1-mer panics there (`(ksize - 2) as isize`; recorded in findings/C15.json). -/
-theorem kmer_checked_k1 (c : Nat) : hashKmerChecked [c] = none := rfl
+/-- the code before the repair (`(ksize - 2) as isize`, overflow-checked build) panicked on every
+    1-mer — replayed on the implementation by `corpus/C15/kmer_k1.ops` … -/
+theorem kmer_pre_repair_cex (c : Nat) : hashOld [c] = none := rfl
+
+/-- … and computed what the repaired code computes for every longer k-mer. -/
+theorem kmer_pre_repair_agrees (kmer : List Nat) (h2 : 2 ≤ kmer.length) : hashOld kmer = hashKmer kmer := by
+  unfold hashOld hashKmer
+  have : kmer.isEmpty = false := by cases kmer <;> simp at h2 ⊢
+  rw [if_neg (by omega), this]
+  rfl
+
+example : hashOld [65, 67] = hashKmer [65, 67] := kmer_pre_repair_agrees _ (by decide)
 
 example : hashKmer [65, 67, 71] = some (canonical [65, 67, 71]) ∧ canonical [65, 67, 71] = 11 := by decide
 
@@ -200,7 +205,7 @@ example : hashKmer [65, 67, 71] = some (canonical [65, 67, 71]) ∧ canonical [6
 theorem countKmer_rc (g : G) (kmer : List Nat) (h : ∀ c ∈ kmer, isACGT c = true) :
     g.countKmer (revcomp kmer) = g.countKmer kmer ∧ g.getKmer (revcomp kmer) = g.getKmer kmer := by
   unfold G.countKmer G.getKmer
-  rw [(kmer_rc kmer h).1]
+  rw [kmer_rc kmer h]
   exact ⟨rfl, rfl⟩
 
 end Sourmash.C15
